@@ -201,7 +201,8 @@ def run(chk):
     IDARGS = ["'a'.b", "[1].q", "true.q", "(1).q", "1.5.q", "1u.q", "b'x'.q", "null.q", "int.q", "x.y", "m1.k", "m1.nokey", "{'a': 1}.a",
               "{'a': 1}.b", "{'a': 'v'}.a", "f(1)", "size('a')", "'a'.size()", "x.f()", "1 + 1", "'s'", "[1][0]", "[1][5]", "l1[0]", "-x",
               "!true", "true ? v : w", "x ? v : w", "[1].map(v, v)", "has(x)", "coalesce(x, 1)", "timestamp(0).q", "now()", "f'{x}'",
-              "match 1 { case int: v }", "1 / 0", "(v)", "((v))", "v.w", "int", "type(1)", "dyn(v)", "[v][0]", "{'k': v}.k"]
+              "match 1 { case int: v }", "match 1 { case int: v, case _: w }", "match x { case _: v }", "x || true", "x || v", "x && v",
+              "match f(1) { case _: v }", "1 / 0", "(v)", "((v))", "v.w", "int", "type(1)", "dyn(v)", "[v][0]", "{'k': v}.k"]
     mcases, mlabels = [], []
     for recv in ["[1, 2]", "l1", "{'a': 1}", "m1", "1", "x"]:
         for ida in IDARGS:
@@ -219,11 +220,7 @@ def run(chk):
                               dict(case=c, label=lab, impl=r, profile=prof))
     mmodel = run_model(mcases)
     for lab, r, m in zip(mlabels, mimpl, mmodel):
-        # the model's private interpreter for the loop-variable argument always refuses run-time inputs the hard way (as the
-        # implementation's does while the compiler folds); at run time the implementation's yields error values there, which a
-        # match arm or || inside such an argument can absorb: the two always agree on success and its value, not always on
-        # which failure it is (DESIGN 10.6)
-        if not is_dead(r) and m != "UNMOD" and m != r and not (r.startswith("ERR ") and m.startswith("ERR ")):
+        if not is_dead(r) and m != "UNMOD" and m != r:
             chk.tie_broken("macros with expression loop variables", dict(label=lab, impl=r[:200], model=m[:200]))
     chk.stream("every macro x 6 receivers x %d expressions in the place of the loop variable" % len(IDARGS), 2 * len(mcases), len(mcases),
                exhaustive=True)
